@@ -14,7 +14,7 @@ import (
 func init() {
 	eng.Register(&eng.Check{
 		ID:          "C08",
-		Rule:        "E1 two-run non-interference: a struct with a renamed field (bexpr:\"v\" json:\"jv\"), fields hidden under each tag name (bexpr:\"-\", json:\"-\", pointer:\"-\"), an unexported field and a rename-colliding field (tag = Go name of a hidden field), placed at top level / behind a pointer / as map value / slice element / nested struct field / []*S element; EVERY assignment of a 3-value hidden-content alphabet (the literal used by the expressions, the zero value nil, a map holding it) to the 4 hideable fields (81 data per nesting), in two variants (visible fields non-zero / all visible fields zero); data are grouped by their projection on the fields visible under the configuration (tag name in {bexpr, json, \"\"} x unknown value {none, \"secret\"}); oracle: (a) every expression (hidden field by Go name, tag name, JSON pointer, through quantifiers, in / is empty / matches / == on the field and on the enclosing struct) has ONE outcome per group; (b) agreement with the reference (a hidden field never resolves to its content; renamed field only under its tag name); (c) Filter.Execute over the members of one group keeps all or none. Distinct by construction; non-trivial = group with >=2 members differing in hidden contents.",
+		Rule:        "E1 two-run non-interference: a struct with a renamed field (bexpr:\"v\" json:\"jv\"), fields hidden under each tag name (bexpr:\"-\", json:\"-\", pointer:\"-\"), an unexported field and a rename-colliding field (tag = Go name of a hidden field), placed at top level / behind a pointer / as map value / slice element / [1]S and *[2]S array element / nested struct field / []*S element; EVERY assignment of a 3-value hidden-content alphabet (the literal used by the expressions, the zero value nil, a map holding it) to the 4 hideable fields (81 data per nesting), in two variants (visible fields non-zero / all visible fields zero); data are grouped by their projection on the fields visible under the configuration (tag name in {bexpr, json, \"\"} x unknown value {none, \"secret\"}); oracle: (a) every expression (hidden field by Go name, tag name, JSON pointer, through quantifiers, in / is empty / matches / == on the field, on the enclosing struct and on the container holding it) has ONE outcome per group; (b) agreement with the reference (a hidden field never resolves to its content; renamed field only under its tag name); (c) Filter.Execute over the members of one group keeps all or none. Distinct by construction; non-trivial = group with >=2 members differing in hidden contents.",
 		Assumptions: []string{"reference interpreter as C01", "hidden-content alphabet of 3 values"},
 		Run:         runC08,
 	})
@@ -72,6 +72,9 @@ func c08Nests() []c08Nest {
 		{"map-value", []string{"m", "k"}, func(s *Node) *Node { return NMap(TStr, TAny, str("m"), NMap(TStr, s.T, str("k"), s)) }},
 		{"slice-elem", []string{"l", "0"}, func(s *Node) *Node { return NMap(TStr, TAny, str("l"), NSlice(s.T, s)) }},
 		{"nested-struct", []string{"N"}, func(s *Node) *Node { return NStruct(F{Name: "N", V: s}, F{Name: "x", Unexp: true, V: one}) }},
+		// fixed-size arrays: "zero-ness" of an array looks into every field of its elements, hidden ones included
+		{"array-elem", []string{"l", "0"}, func(s *Node) *Node { return NMap(TStr, TAny, str("l"), NArray(s.T, s)) }},
+		{"array2-elem-behind-pointer", []string{"l", "1"}, func(s *Node) *Node { return NMap(TStr, TAny, str("l"), NPtr(NArray(s.T, s, s))) }},
 		{"ptr-slice-elem", []string{"l", "0"}, func(s *Node) *Node {
 			return NPtr(NStruct(F{Name: "L", Tag: `bexpr:"l" json:"l" pointer:"l"`, V: NSlice(&Type{K: KPtr, Elem: s.T}, NPtr(s))}))
 		}},
@@ -110,6 +113,8 @@ func c08Exprs(prefix []string) []any {
 					&Quant{All: false, Sel: cont, Mode: BindValue, Val: "x", Body: &Match{Sel: []string{"x", n}, Op: OpEq, Lit: "secret"}},
 					&Quant{All: true, Sel: cont, Mode: BindBoth, Idx: "i", Val: "x", Body: &Match{Sel: []string{"x", n}, Op: OpIn, Lit: "secret"}})
 			}
+			// the container as a whole
+			out = append(out, &Match{Sel: cont, Op: OpEmpty}, &Not{X: &Match{Sel: cont, Op: OpEmpty}}, &Match{Sel: cont, Op: OpIn, Lit: "secret"}, &Match{Sel: cont, Op: OpEq, Lit: "secret"})
 			out = append(out, &Quant{All: false, Sel: cont, Mode: BindValue, Val: "x", Body: &Match{Sel: []string{"x"}, Op: OpIn, Lit: "secret"}},
 				&Quant{All: false, Sel: cont, Mode: BindValue, Val: "x", Body: &Match{Sel: []string{"x"}, Op: OpMatches, Lit: "secret"}})
 		}
@@ -230,6 +235,8 @@ func execLen(f *bexpr.Filter, data interface{}) (n int, err error, panicked stri
 			panicked = fmt.Sprint("PANIC: ", r)
 		}
 	}()
+	eng.CallBegin(f, data)
+	defer eng.CallEnd()
 	res, err := f.Execute(data)
 	if err != nil {
 		return 0, err, ""
